@@ -225,6 +225,8 @@ class FnTranslator:
             segs = self.path_segs(e)
             if len(segs) == 1 and not segs[0][:1].isupper():
                 return "(EVar %s)" % cs(segs[0])
+            if len(segs) == 1 and self.interior and segs[0] in getattr(self, "symbolic_consts", ()):
+                return "(ECon %s [])" % cs("const::" + segs[0])      # a named constant of the crate, kept by name
             if len(segs) == 1 and segs[0].isupper():
                 return "(EVar %s)" % cs(segs[0])          # const generic parameter such as N
             return "(ECon %s [])" % cs(self.con_name(segs))
@@ -293,6 +295,19 @@ class FnTranslator:
             if self.interior and name == "map" and len(e) == 4 and e[3][0] in ("closure", "path") and e[1][0] == "mcall" and \
                     S(e[1][2]) in ("into_iter", "iter") and len(e[1]) == 3:
                 return self.array_map(e[1][1], e[3])
+            if self.interior and name == "collect" and len(e) == 3 and e[1][0] == "mcall" and S(e[1][2]) == "filter":
+                return self.expr(e[1])
+            if self.interior and name == "filter" and len(e) == 4 and e[3][0] == "closure" and e[1][0] == "mcall" and \
+                    S(e[1][2]) in ("into_iter", "iter") and len(e[1]) == 3:
+                return self.array_filter(e[1][1], e[3])
+            if self.interior and name == "or" and len(e) == 4:
+                # Option::or: the receiver when it is Some, the argument otherwise
+                return "(EMatch %s [(PCon \"Some\" [PVar \"or_v\"], ECon \"Some\" [EVar \"or_v\"]); (PCon \"None\" [], %s)])" % (
+                    self.expr(e[1]), self.expr(e[3]))
+            if self.interior and name == "unwrap_or_else" and len(e) == 4 and e[3][0] == "path":
+                segs = self.path_segs(e[3])
+                return "(EMatch %s [(PCon \"Some\" [PVar \"unwrap_v\"], EVar \"unwrap_v\"); (PCon \"None\" [], ECon %s [])])" % (
+                    self.expr(e[1]), cs("::".join(segs)))
             if self.interior and name == "find" and len(e) == 4 and e[3][0] == "closure" and e[1][0] == "mcall" and \
                     S(e[1][2]) in ("into_iter", "iter") and len(e[1]) == 3:
                 return self.array_find(e[1][1], e[3])
@@ -304,7 +319,7 @@ class FnTranslator:
             if name in ("map", "map_err") and self.interior and len(e) == 4 and e[3][0] in ("path", "closure") and \
                     not (name == "map_err" and e[3][0] == "path" and len(e[3]) == 2):
                 return self.hof_map(e[1], e[3], name == "map_err")
-            if name in ("as_slice", "as_ref") and self.interior and len(e) == 3:
+            if name in ("as_slice", "as_ref", "iter", "into_iter") and self.interior and len(e) == 3:
                 return "(ECall \"into\" [%s])" % self.expr(e[1])      # a view of the same value
             if name == "into" and self.interior:
                 # a conversion into another type (StdError into the contract's error type): kept visible
@@ -340,6 +355,8 @@ class FnTranslator:
                 return "(ECall %s %s)" % (cs(q), clist([self.expr(e[1])] + [self.expr(a) for a in e[3:]]))
             if name == "unwrap" and self.interior:
                 return "(ECall \"unwrap\" [%s])" % self.expr(e[1])
+            if name == "count" and self.interior and len(e) == 3:
+                return "(ECall \"len\" [%s])" % self.expr(e[1])     # the number of elements an iterator yields
             if name not in ("len", "is_empty", "into", "to_string", "unwrap_or_default_string"):
                 raise TranslateError("unsupported method call .%s()" % name)
             return "(ECall %s %s)" % (cs(name), clist([self.expr(e[1])] + [self.expr(a) for a in e[3:]]))
@@ -554,6 +571,17 @@ class FnTranslator:
                 "(EBlock [SLet (PVar %s) (EIndex (EVar \"map_src%d\") (EVar \"map_i%d\")); "
                 "STail (EAssign \"map_acc%d\" [] (ECall \"push\" [EVar \"map_acc%d\"; %s]))])); STail (EVar \"map_acc%d\")])"
                 % (n, self.expr(src), n, n, n, cs(v), n, n, n, n, body, n))
+
+    def array_filter(self, src, clo):
+        """`xs.into_iter().filter(|v| COND)`: the elements satisfying COND, in order"""
+        v, cond = self.closure1(clo)
+        self.hof_no = getattr(self, "hof_no", 0) + 1
+        n = self.hof_no
+        return ("(EBlock [SLet (PVar \"flt_src%d\") %s; SLet (PVar \"flt_acc%d\") (EArr []); "
+                "SExpr (EFor \"flt_i%d\" (EConst (VNat 0)) (ECall \"len\" [EVar \"flt_src%d\"]) "
+                "(EBlock [SLet (PVar %s) (EIndex (EVar \"flt_src%d\") (EVar \"flt_i%d\")); "
+                "STail (EIf %s (EAssign \"flt_acc%d\" [] (ECall \"push\" [EVar \"flt_acc%d\"; EVar %s])) (EConst VUnit))])); "
+                "STail (EVar \"flt_acc%d\")])" % (n, self.expr(src), n, n, n, cs(v), n, n, cond, n, n, cs(v), n))
 
     def array_find(self, src, clo):
         """`xs.iter().find(|v| COND)`: Some of the first element satisfying COND, else None"""
@@ -938,6 +966,38 @@ def translate_bridge_logic():
     return out
 
 
+def translate_msg_new():
+    """`EnumMessage::new` of the contract side and of the interface side: which `sv::msg_attr` lines a message type of a kind
+    gets (the filter on the kind)."""
+    def setup(t):
+        t.interior = True
+        t.symbolic_methods = {"as_variants"}
+        t.externals = {"emit_contract_custom_type_accessor"}       # answers an Option: a stub the theorem quantifies over
+        t.symbolic_consts = {"EXEC_TYPE", "QUERY_TYPE"}
+    FOREIGN.update({"MsgVariants::new": "MsgVariants::new", "ParsedSylviaAttributes::new": "call:extern::ParsedSylviaAttributes::new"})
+    known = {"push", "extern::ParsedSylviaAttributes::new", "extern::emit_contract_custom_type_accessor"}
+    out = []
+    for rel, tag in (("contract/communication/enum_msg.rs", "contract"), ("interface/communication/enum_msg.rs", "interface")):
+        kv = fetch_ast(os.path.join(common.REPO, "sylvia-derive", "src", *rel.split("/")))
+        fns = translate_methods(rel, {"EnumMessage": ["new"]}, setup=setup, kv=kv, extra_known=known)
+        out += [f.replace('fn_name := "EnumMessage::new"', 'fn_name := "EnumMessage::new@%s"' % tag) for f in fns]
+
+    def setup_struct(t):
+        # `variants.variants()` / `.msg_ty()` read a component of the variants built by the stub; `next` / `function_name` only
+        # feed the diagnostics (spans) and are answered by stubs
+        t.interior = True
+        t.symbolic_methods = {"as_variants"}
+        t.accessor_methods = {"variants", "msg_ty"}
+        t.externals = {"next", "function_name"}
+    FOREIGN["MsgVariants::new"] = "call:extern::MsgVariants::new"
+    rel = "contract/communication/struct_msg.rs"
+    kv = fetch_ast(os.path.join(common.REPO, "sylvia-derive", "src", *rel.split("/")))
+    out += translate_methods(rel, {"StructMessage": ["new"]}, setup=setup_struct, kv=kv,
+                             extra_known=known | {"len", "extern::next", "extern::function_name", "extern::MsgVariants::new"})
+    FOREIGN["MsgVariants::new"] = "call:extern::MsgVariants::new"
+    return out
+
+
 MT_LOGIC_EXTERNS = {"crate_module", "emit_bracketed_generics", "get_ident_from_type"}
 
 
@@ -1123,6 +1183,10 @@ def generate():
         legs, _ = [], errors.append("macro logic (dispatch legs: msg_variant.rs, msg_type.rs): %s" % e)
 
     try:
+        msgnew = translate_msg_new()
+    except TranslateError as e:
+        msgnew, _ = [], errors.append("macro logic (message constructors: */communication/enum_msg.rs, struct_msg.rs): %s" % e)
+    try:
         bridge = translate_bridge_logic()
     except TranslateError as e:
         bridge, _ = [], errors.append("macro logic (bridged arms: interfaces.rs, msg_type.rs): %s" % e)
@@ -1178,6 +1242,10 @@ def generate():
     LAST_EXTRA_TEXTS = {
         "GenImpLeg.v": gen_file("the match arm of a message variant (types/msg_variant.rs, types/msg_type.rs)", [
             "Definition leg_fns : program :=", prog(legs)]),
+        "GenImpAttr.v": gen_file("the constructors of the message types (contract/communication/enum_msg.rs, struct_msg.rs, "
+                                 "interface/communication/enum_msg.rs)", [
+            "(* EnumMessage::new of the contract side and of the interface side, StructMessage::new: the forwarded msg_attr lines of a kind *)",
+            "Definition msgnew_fns : program :=", prog(msgnew)]),
         "GenImpBridge.v": gen_file("the contract-level message (types/interfaces.rs, types/msg_type.rs, contract/communication/wrapper_msg.rs)", [
             "(* Interfaces::emit_*, MsgType::emit_ctx_dispatch_values, GlueMessage::emit *)",
             "Definition bridge_fns : program :=", prog(bridge)])}
